@@ -1019,6 +1019,20 @@ def fold(t, assume, discr=None):
                 return ("lit", CHAR_FNS[ck](args[0][1]))
             if ck in BOOL_CHAR_FNS and args and args[0][0] == "lit" and isinstance(args[0][1], str):
                 return ("lit", BOOL_CHAR_FNS[ck](args[0][1]))
+            if ck.endswith("::to_string") and len(args) == 1 and args[0][0] == "lit" and not isinstance(args[0][1], bool):
+                return ("lit", str(args[0][1]))
+            if ck.endswith(("String::as_str", "::as_ref", "Deref>::deref", "::borrow")) and len(args) == 1 and args[0][0] == "lit" \
+                    and isinstance(args[0][1], str):
+                return args[0]
+            if ck.endswith("FromStr>::from_str") and len(args) == 1 and args[0][0] == "lit":
+                return ("ctor", "std::result::Result::Ok", (args[0],))
+            if ck.endswith("Result::<T, E>::unwrap") and len(args) == 1 and args[0][0] == "ctor" and str(args[0][1]).endswith("Ok"):
+                return args[0][2][0]
+            if ck.endswith("Option::<T>::is_some") and len(args) == 1:
+                if args[0][0] == "variant" and args[0][1].endswith("::None"):
+                    return ("lit", False)
+                if args[0][0] == "ctor" and str(args[0][1]).endswith("::Some"):
+                    return ("lit", True)
             return ("call", t[1], args)
         if h == "ctor":
             return ("ctor", t[1], tuple(f(x) for x in t[2]))
